@@ -176,6 +176,14 @@ def check_adapter(ctx, facts, fn, rule_prefix, want_scope=True, want_finish=True
                         and "Poll<" in info["ty"]:
                     sw = b
                     break
+            if sw is None:
+                # the result matched behind a reference (`matches!(&res, Poll::Ready(None))` in a helper that was looked through)
+                for b in range(len(fn.blocks)):
+                    info = fn.switch_info(b)
+                    if info and info.get("kind") == "discr" and re.search(r"^(&(mut )?)?core::task::poll::Poll<", info["ty"]) \
+                            and not fn.blocks[b]["cleanup"] and root_local(fn, info["place"])[0] == res:
+                        sw = b
+                        break
             bool_ready = set()
             if sw is None:
                 prov2 = prov
@@ -207,8 +215,8 @@ def check_adapter(ctx, facts, fn, rule_prefix, want_scope=True, want_finish=True
                     inner = None
                     for b in range(len(fn.blocks)):
                         info = fn.switch_info(b)
-                        if info and info.get("kind") == "discr" and info["place"]["l"] == res \
-                                and info["place"]["p"] and "Option<" in info["ty"]:
+                        if info and info.get("kind") == "discr" and root_local(fn, info["place"])[0] == res \
+                                and re.search(r"^(&(mut )?)?core::option::Option<", info["ty"]) and not fn.blocks[b]["cleanup"]:
                             inner = b
                     if inner is None:
                         ctx.fail(rule_prefix + "R2", fn.path, fn.span, "the span is finished exactly at end of stream",
